@@ -7,6 +7,7 @@ import (
 	"fmt"
 	"go/token"
 	"go/types"
+	"strings"
 
 	"golang.org/x/tools/go/ssa"
 )
@@ -211,11 +212,18 @@ func (e *Engine) trustedTime(callee *ssa.Function, args []Val, st *State) (Val, 
 			return nil, false
 		}
 		switch name {
-		case "UTC", "Local", "Round":
-			if name == "Round" {
-				return nil, false
+		case "UTC":
+			u := "(+ " + t + " 0)" // same instant, UTC location (a distinct term so that the location mark does not leak back)
+			if e.utcTimes[t] {
+				u = t
 			}
-			return TimeV{t}, true
+			e.markUTC(u)
+			return TimeV{u}, true
+		case "Local", "In":
+			return TimeV{"(- " + t + " 0)"}, true // same instant, unknown location
+		case "Year", "Month", "Day":
+			e.calendarAxiom()
+			return IntV{"(uf_" + strings.ToLower(name) + " " + e.localNanos(t) + ")"}, true
 		case "Before":
 			if u, ok := tv(1); ok {
 				return BoolV{"(< " + t + " " + u + ")"}, true
@@ -233,7 +241,7 @@ func (e *Engine) trustedTime(callee *ssa.Function, args []Val, st *State) (Val, 
 				return IntV{ite("(< "+t+" "+u+")", "(- 1)", ite("(> "+t+" "+u+")", "1", "0"))}, true
 			}
 		case "Add":
-			return TimeV{"(+ " + t + " " + termOf(args[1]) + ")"}, true
+			return TimeV{e.keepLoc(t, "(+ "+t+" "+termOf(args[1])+")")}, true
 		case "Sub":
 			if u, ok := tv(1); ok {
 				return IntV{"(- " + t + " " + u + ")"}, true
@@ -250,13 +258,13 @@ func (e *Engine) trustedTime(callee *ssa.Function, args []Val, st *State) (Val, 
 			d := termOf(args[1])
 			// valid for durations that divide a day when counted from the unix epoch (seconds, minutes, hours, days):
 			// Go truncates relative to the zero time, which is a whole number of days before the epoch.
-			return TimeV{ite("(> "+d+" 0)", "(- "+t+" (mod "+t+" "+d+"))", t)}, true
+			return TimeV{e.keepLoc(t, ite("(> "+d+" 0)", "(- "+t+" (mod "+t+" "+d+"))", t))}, true
 		case "AddDate":
 			y, okY := litInt(termOf(args[1]))
 			m, okM := litInt(termOf(args[2]))
 			if okY && okM && y == 0 && m == 0 {
-				// adding whole days in UTC
-				return TimeV{"(+ " + t + " (* " + termOf(args[3]) + " 86400000000000))"}, true
+				// adding whole days (fixed-offset locations: a day is 24 h)
+				return TimeV{e.keepLoc(t, "(+ "+t+" (* "+termOf(args[3])+" 86400000000000))")}, true
 			}
 		}
 	case "time.Duration":
@@ -280,7 +288,28 @@ func (e *Engine) trustedTime(callee *ssa.Function, args []Val, st *State) (Val, 
 		case "Unix":
 			return TimeV{"(+ (* " + termOf(args[0]) + " " + nsPerSec + ") " + termOf(args[1]) + ")"}, true
 		case "Date":
-			// time.Date(y, m, d, 0,0,0,0, UTC) is the start of a UTC day: uninterpreted day number with the midnight axiom
+			// time.Date(y, m, d, 0, 0, 0, 0, time.UTC): the start of a UTC calendar day
+			if len(args) == 8 {
+				zero := true
+				for _, a := range args[3:7] {
+					if n, ok := litInt(termOf(a)); !ok || n != 0 {
+						zero = false
+					}
+				}
+				isUTC := false
+				switch loc := args[7].(type) {
+				case OpaqueV:
+					isUTC = strings.Contains(loc.T, "time.UTC")
+				case PtrV:
+					isUTC = strings.Contains(loc.Name, "time.UTC")
+				}
+				if zero && isUTC {
+					e.calendarAxiom()
+					d := "(uf_dateUTC " + termOf(args[0]) + " " + termOf(args[1]) + " " + termOf(args[2]) + ")"
+					e.markUTC(d)
+					return TimeV{d}, true
+				}
+			}
 			return nil, false
 		}
 	}
